@@ -117,6 +117,23 @@ def work(shard, res, tier, seed):
                 c2 = {"tag": case["tag"] + "/resubmitted", "inputs": again, "cfg": case.get("cfg")}
                 judge(c2, rowlib.run_case(c2), res)
                 res.count("resubmitted_rows", len(again))
+        if ci == 1:
+            # the same batch and then a permutation of it through a Balancer with the result cache on: every
+            # returned row still has to describe the reaction submitted at its position
+            import shutil
+            import tempfile
+            from vmon import pipeline
+            tmp = tempfile.mkdtemp(prefix="verif_c02c_")
+            try:
+                bc = pipeline.make_balancer(n_jobs=1, cache=True, cache_dir=tmp)
+                perm = list(case["inputs"])[::-1]
+                for inputs in (case["inputs"], perm, case["inputs"]):
+                    rows, stats, err = pipeline.run(bc, inputs)
+                    c3 = {"tag": case["tag"] + "/cached", "inputs": inputs, "cfg": case.get("cfg")}
+                    judge(c3, {"rows": rows, "stats": stats, "err": err, "batches": []}, res)
+                    res.count("cached_runs_of_permuted_batches")
+            finally:
+                shutil.rmtree(tmp, ignore_errors=True)
         if len(res.samples) < 3 and out["rows"]:
             for row in out["rows"]:
                 if row.get("reaction") != row.get("input_reaction"):
@@ -125,5 +142,6 @@ def work(shard, res, tier, seed):
 
 
 def conclude_args(res, tier, seed):
-    return {"need": {"rows_with_additions": 20, "inputs_with_marker_text": 20, "resubmitted_rows": 20},
+    return {"need": {"rows_with_additions": 20, "inputs_with_marker_text": 20, "resubmitted_rows": 20,
+                     "cached_runs_of_permuted_batches": 6},
             "min_cases": 20}
